@@ -22,6 +22,8 @@ except ImportError:  # pragma: no cover
     import c2nav
 
 TIE_FILE = vlib.VERIF / "harness" / "C03" / "TieNav.v"
+MACRO_TIE_FILE = vlib.VERIF / "harness" / "C03" / "TieNavMacros.v"
+UNIT_FILE = vlib.VERIF / "harness" / "C03" / "macro_unit.c"
 LAYOUTS = (("packed", "A_SIZE_POINTER 8: parent and tag in the word parent_"),
            ("unpacked", "A_SIZE_POINTER 1: plain field parent"))
 
@@ -49,26 +51,65 @@ def first_error(out):
 
 
 def owner_theorem(src, line):
-    """(name of the lemma/theorem the line belongs to, tie theorem it serves = itself or the first `Theorem tie_` after it)"""
+    """(name of the lemma/theorem/corollary the line belongs to, tie theorem it serves: itself, the first `Theorem tie_` after
+    a lemma, the last one before a corollary)"""
     lines = src.splitlines()
-    name = None
+    name, kind = None, None
     for i in range(min(line, len(lines)) - 1, -1, -1):
-        m = re.match(r"\s*(?:Theorem|Lemma|Corollary|Definition|Fixpoint|Example|Fact|Remark|Proposition|Ltac)\s+([\w']+)", lines[i])
+        m = re.match(r"\s*(Theorem|Lemma|Corollary|Definition|Fixpoint|Example|Fact|Remark|Proposition|Ltac)\s+([\w']+)", lines[i])
         if m:
-            name = m.group(1)
+            kind, name = m.group(1), m.group(2)
             break
     if name and name.startswith("tie_"):
         return name, name
-    for i in range(max(line - 1, 0), len(lines)):
+    rng = range(min(line, len(lines)) - 1, -1, -1) if kind == "Corollary" else range(max(line - 1, 0), len(lines))
+    for i in rng:
         m = re.match(r"\s*Theorem\s+(tie_[\w']+)", lines[i])
         if m:
             return name, m.group(1)
     return name, None
 
 
-def one_layout(ctx, layout, what, tie_src, thms, timeout):
-    """-> dict(layout, text, errs, forms, broken: [messages], discharged: int, closed: bool)"""
-    r = {"layout": layout, "text": "", "errs": {}, "forms": {}, "broken": [], "discharged": 0}
+class Stage:
+    """one generated module + the tie file proved against it"""
+
+    def __init__(self, gen_module, tie_file, what):
+        self.gen_module, self.tie_file, self.what = gen_module, Path(tie_file), what
+        self.src = self.tie_file.read_text()
+        self.thms = re.findall(r"^\s*Theorem\s+(tie_[\w']+)", self.src, flags=re.M)
+
+
+def run_stage(gd, args, stage, text, tag, timeout):
+    """write and compile the generated module, compile the tie file, print the assumptions -> (broken messages, discharged)"""
+    (gd / (stage.gen_module + ".v")).write_text(text)
+    rc, out = vlib.sh(args + [str(gd / (stage.gen_module + ".v"))], cwd=gd, timeout=timeout)
+    if rc != 0:
+        return ["generated %s %s.v (%s) do not compile: %s" % (stage.what, stage.gen_module, tag, first_error(out)[1])], 0
+    tf = gd / stage.tie_file.name
+    tf.write_text(stage.src)
+    rc, out = vlib.sh(args + [str(tf)], cwd=gd, timeout=timeout)
+    if rc != 0:
+        line, msg = first_error(out)
+        name, thm = owner_theorem(stage.src, line) if line else (None, None)
+        if thm and name and name != thm:
+            which = "tie theorem %s (its %s %s)" % (thm, "corollary" if name.endswith("_complete") else "lemma", name)
+        else:
+            which = "tie theorem %s" % (thm or name or "?")
+        return ["regenerated %s no longer match the proved model, %s: %s of %s fails: %s"
+                % (stage.what, tag, which, stage.tie_file.name, msg)], (stage.thms.index(thm) if thm in stage.thms else 0)
+    paf = gd / ("PA_" + stage.tie_file.stem + ".v")
+    paf.write_text("From Gen Require Import %s.\n" % stage.tie_file.stem + "".join("Print Assumptions %s.\n" % t for t in stage.thms))
+    rc, pa = vlib.sh(args + [str(paf)], cwd=gd, timeout=timeout)
+    closed = len(re.findall(r"^Closed under the global context", pa, flags=re.M))
+    if rc != 0 or closed < len(stage.thms):
+        return ["Print Assumptions under the tie theorems of %s, %s: %d of %d closed: %s"
+                % (stage.tie_file.name, tag, closed, len(stage.thms), " ".join(pa.split())[-300:])], 0
+    return [], len(stage.thms)
+
+
+def one_layout(ctx, layout, what, nav, mac, timeout):
+    """-> dict(layout, text, mtext, forms, broken: [messages], discharged: (nav, macros), unit: {tree: [unit functions]})"""
+    r = {"layout": layout, "text": "", "mtext": "", "forms": {}, "broken": [], "discharged": [0, 0], "unit": {}}
     tag = "%s layout (%s)" % (layout, what)
     # a run against a scratch copy (VERIF_REPO) gets its own directory: it may run at the same time as a run on /repo
     scratch = "" if str(vlib.REPO) == "/repo" else "_" + hashlib.md5(str(vlib.REPO).encode()).hexdigest()[:8]
@@ -79,85 +120,111 @@ def one_layout(ctx, layout, what, tie_src, thms, timeout):
             old.unlink()
         except OSError:
             pass
-    cfg = layout_cfg(ctx, layout)
-    text, errs, forms = c2nav.translate(vlib.REPO, str(Path(cfg).resolve()))
-    r.update(text=text, errs=errs, forms=forms)
-    (gd / "NavGen.v").write_text(text)
+    cfg = str(Path(layout_cfg(ctx, layout)).resolve())
+    sigs = {}
+    text, errs, forms = c2nav.translate(vlib.REPO, cfg, sigs=sigs)
+    r.update(text=text, forms=forms)
+    args = ["coqc", "-Q", str(vlib.COQ), "LibaV", "-Q", str(gd), "Gen", "-w", "none"]
     if errs:
+        (gd / "NavGen.v").write_text(text)
         for k, v in errs.items():
             r["broken"].append("translator c2nav, %s: %s is outside the supported subset: %s" % (tag, k, v))
+        r["broken"].append("the tie of the iteration macros was not checked in the %s layout (it builds on the navigation functions)" % layout)
         return r
-    args = ["coqc", "-Q", str(vlib.COQ), "LibaV", "-Q", str(gd), "Gen", "-w", "none"]
-    rc, out = vlib.sh(args + [str(gd / "NavGen.v")], cwd=gd, timeout=timeout)
-    if rc != 0:
-        r["broken"].append("generated navigation functions NavGen.v (%s) do not compile: %s" % (tag, first_error(out)[1]))
+    broken, n = run_stage(gd, args, nav, text, tag, timeout)
+    r["discharged"][0] = n
+    if broken:
+        r["broken"] += broken + ["the tie of the iteration macros was not checked in the %s layout (it builds on the tie of the "
+                                 "navigation functions)" % layout]
         return r
-    tf = gd / TIE_FILE.name
-    tf.write_text(tie_src)
-    rc, out = vlib.sh(args + [str(tf)], cwd=gd, timeout=timeout)
-    if rc != 0:
-        line, msg = first_error(out)
-        name, thm = owner_theorem(tie_src, line) if line else (None, None)
-        if thm and name and name != thm:
-            which = "tie theorem %s (its lemma %s)" % (thm, name)
-        else:
-            which = "tie theorem %s" % (thm or name or "?")
-        r["broken"].append("regenerated navigation function no longer matches the proved model, %s: %s of %s fails: %s"
-                           % (tag, which, TIE_FILE.name, msg))
-        r["discharged"] = thms.index(thm) if thm in thms else 0
+    # second stage: the iteration macros of the headers, expanded by clang in the unit file
+    mtext, merrs, unit = c2nav.translate_unit(UNIT_FILE, vlib.REPO.resolve() / "include", cfg, sigs)
+    r.update(mtext=mtext, unit=unit)
+    if merrs:
+        (gd / "NavGenMacros.v").write_text(mtext)
+        for k, v in merrs.items():
+            r["broken"].append("translator c2nav, %s: %s (iteration macro expanded in %s) is outside the supported subset: %s"
+                               % (tag, k, UNIT_FILE.name, v))
         return r
-    paf = gd / "PA_TieNav.v"
-    paf.write_text("From Gen Require Import %s.\n" % TIE_FILE.stem + "".join("Print Assumptions %s.\n" % t for t in thms))
-    rc, pa = vlib.sh(args + [str(paf)], cwd=gd, timeout=timeout)
-    closed = len(re.findall(r"^Closed under the global context", pa, flags=re.M))
-    if rc != 0 or closed < len(thms):
-        r["broken"].append("Print Assumptions under the tie theorems of %s, %s: %d of %d closed: %s"
-                           % (TIE_FILE.name, tag, closed, len(thms), " ".join(pa.split())[-300:]))
-        return r
-    r["discharged"] = len(thms)
+    broken, n = run_stage(gd, args, mac, mtext, tag, timeout)
+    r["discharged"][1] = n
+    r["broken"] += broken
     return r
 
 
 def nav_translate_and_tie(ctx, timeout=300):
-    """Returns True iff every tie theorem was accepted in both layouts."""
-    tie_src = TIE_FILE.read_text()
-    thms = re.findall(r"^\s*Theorem\s+(tie_[\w']+)", tie_src, flags=re.M)
+    """Returns True iff every tie theorem (navigation functions and iteration macros) was accepted in both layouts."""
+    nav = Stage("NavGen", TIE_FILE, "navigation functions")
+    mac = Stage("NavGenMacros", MACRO_TIE_FILE, "iteration macros")
     funcs = [f for t in ("avl", "rbt") for f in c2nav.nav_functions(t)]
-    ctx.cov["obligations"] += len(thms) * len(LAYOUTS)
+    ctx.cov["obligations"] += (len(nav.thms) + len(mac.thms)) * len(LAYOUTS)
     ctx.cov.setdefault("translated_functions", []).extend(funcs)
-    bad = ctx.scan_forbidden_text(tie_src)
-    if bad:
-        ctx.tie_broken("forbidden construct in %s: %s" % (TIE_FILE, bad))
-        return False
+    for st in (nav, mac):
+        bad = ctx.scan_forbidden_text(st.src)
+        if bad:
+            ctx.tie_broken("forbidden construct in %s: %s" % (st.tie_file, bad))
+            return False
     # every function on the list must have its tie theorem (a function dropped from the tie file would otherwise go unnoticed)
-    missing = [f for f in funcs if not f.endswith("_new_child") and "tie_" + f not in thms]
+    missing = [f for f in funcs if not f.endswith("_new_child") and "tie_" + f not in nav.thms]
     if missing:
         ctx.tie_broken("%s has no tie theorem for: %s" % (TIE_FILE.name, ", ".join(missing)))
         return False
-    with ThreadPoolExecutor(max_workers=len(LAYOUTS)) as ex:
-        res = list(ex.map(lambda lw: one_layout(ctx, lw[0], lw[1], tie_src, thms, timeout), LAYOUTS))
+    # ... and every iteration macro the CURRENT headers define (function-like macro whose replacement starts with `for`) must have its
+    # unit function and its tie theorem
+    macros = {t: c2nav.header_loop_macros(vlib.REPO / "include", t) for t in ("avl", "rbt")}
+    unit_src = UNIT_FILE.read_text()
     ok = True
+    for t, ms in macros.items():
+        if len(ms) < 14:
+            ctx.tie_broken("only %d iteration macros found in include/a/%s.h (14 expected: 7 loops, lower-case and upper-case form): %s"
+                           % (len(ms), t, ", ".join(ms)))
+            ok = False
+        for m in ms:
+            if not re.search(r"\bu_%s\s*\(" % re.escape(m), unit_src) or "tie_u_" + m not in mac.thms:
+                ctx.tie_broken("iteration macro %s of include/a/%s.h has no unit function u_%s in %s or no tie theorem tie_u_%s in %s"
+                               % (m, t, m, UNIT_FILE.name, m, MACRO_TIE_FILE.name))
+                ok = False
+    ctx.cov.setdefault("translated_macros", []).extend(m for t in ("avl", "rbt") for m in macros[t])
+    if not ok:
+        return False
+    # model-level lemmas the macro tie relies on (coq/C03/NavLemmas.v): scanned and built like the rest of the development
+    need = "C03/NavLemmas.v"
+    bad = ctx.scan_forbidden([vlib.COQ / d for d in sorted(set(ctx.coq_deps(need)) | {need})])
+    if bad:
+        ctx.tie_broken("forbidden construct in the files the macro tie relies on: " + "; ".join(bad[:10]))
+        return False
+    okb, outs, failed = ctx.coq_build([need], timeout=timeout)
+    if not okb:
+        ctx.tie_broken("lemma file %s of the macro tie does not build: %s" % (",".join(failed), " ".join(outs.get(failed[0], "").split())[-400:]))
+        return False
+    with ThreadPoolExecutor(max_workers=len(LAYOUTS)) as ex:
+        res = list(ex.map(lambda lw: one_layout(ctx, lw[0], lw[1], nav, mac, timeout), LAYOUTS))
     for r in res:
-        ctx.cov["discharged"] += r["discharged"]
+        ctx.cov["discharged"] += sum(r["discharged"])
         for b in r["broken"]:
             ok = False
             ctx.tie_broken(b)
-        if not r["broken"]:
-            ctx.cov.setdefault("theorems", []).extend("%s [%s layout]" % (t, r["layout"]) for t in thms)
-    same = len(set(r["text"] for r in res)) == 1
+        for st, n in zip((nav, mac), r["discharged"]):
+            if n == len(st.thms):
+                ctx.cov.setdefault("theorems", []).extend("%s [%s layout]" % (t, r["layout"]) for t in st.thms)
+    same = len(set(r["text"] for r in res)) == 1 and len(set(r["mtext"] for r in res)) == 1
     ctx.cov["nav_tie"] = {
-        "layouts": {r["layout"]: {"parent_accessor": r["forms"], "tie_theorems_accepted": r["discharged"], "of": len(thms)} for r in res},
+        "layouts": {r["layout"]: {"parent_accessor": r["forms"], "tie_theorems_accepted": r["discharged"][0], "of": len(nav.thms),
+                                  "macro_tie_theorems_accepted": r["discharged"][1], "macro_of": len(mac.thms)} for r in res},
+        "iteration_macros_of_the_headers": macros,
         "generated_code_identical_in_all_layouts": same,
-        "generated_loops": len(re.findall(r"^Fixpoint ", res[0]["text"], flags=re.M)),
-        "generated_lines": res[0]["text"].count("\n")}
+        "generated_loops": len(re.findall(r"^Fixpoint ", res[0]["text"] + res[0]["mtext"], flags=re.M)),
+        "generated_lines": (res[0]["text"] + res[0]["mtext"]).count("\n")}
     if not ok:
         return False
     ctx.cov["trusted_base"].append(
         "translator tools/c2nav.py (clang JSON AST -> Gallina over the reader/heap vocabulary of C03/IterDefs.v: checked field reads, "
-        "fuelled loops, state writes; parent accessor recognised by its definition); its output is re-tied on every run: %d tie "
-        "theorems x %d node layouts (generated function = proved model, for every reader, fuel and argument) accepted by coqc, all "
-        "closed under the global context; generated code %s in the two layouts"
-        % (len(thms), len(LAYOUTS), "identical" if same else "DIFFERENT"))
-    ctx.log("navigation translator tie: %d functions regenerated per layout, %d tie theorems x %d layouts accepted%s"
-            % (len(funcs), len(thms), len(LAYOUTS), "" if same else " (generated code differs between the layouts)"))
+        "fuelled loops, state writes, visits as a returned list, checked free; parent accessor recognised by its definition); its "
+        "output is re-tied on every run: %d tie theorems for the navigation functions + %d for the iteration macros of avl.h / rbt.h "
+        "(expanded by clang in harness/C03/macro_unit.c) x %d node layouts (generated function = proved model / enumeration, for every "
+        "reader, fuel, root and state) accepted by coqc, all closed under the global context; generated code %s in the two layouts"
+        % (len(nav.thms), len(mac.thms), len(LAYOUTS), "identical" if same else "DIFFERENT"))
+    ctx.log("navigation translator tie: %d functions + %d iteration macros regenerated per layout, (%d + %d) tie theorems x %d layouts accepted%s"
+            % (len(funcs), sum(len(v) for v in macros.values()), len(nav.thms), len(mac.thms), len(LAYOUTS),
+               "" if same else " (generated code differs between the layouts)"))
     return True
